@@ -175,7 +175,9 @@ class Renderer:
         body = self.items(f["items"])
         if self.rng.random() < 0.1 and body:
             body += self.rng.choice([b" ", b",", b" ,"])
-        return name + b":" + lead + body + b"\n"
+        # RFC 822: white space (SPACE, TAB) may stand between the field name and the colon
+        gap = self.rng.choice([b"", b"", b"", b"", b" ", b"\t", b" \t ", b"\t\t"]) if self.fold else b""
+        return name + gap + b":" + lead + body + b"\n"
 
 
 def mailbox_shape(m):
